@@ -178,6 +178,7 @@ func c14Setter(k *core.Case) {
 // type (plus, for a decoded object, the received attributes not overwritten); framing must be clean
 // (zero padding!), Marshal deterministic, and the packet must decode to the same content.
 func c14History(k *core.Case, decoded bool) {
+	noiseFor(k)
 	k.Eval(1)
 	final := map[uint8]abs.HB{}
 	var steps []string
@@ -212,6 +213,22 @@ func c14History(k *core.Case, decoded bool) {
 	n := 2 + k.R.Intn(8)
 	types := []uint8{abs.ATRand, abs.ATAutn, abs.ATRes, abs.ATMac, abs.ATKdfInput, abs.ATKdf, abs.ATCheckcode, abs.ATRes, abs.ATKdfInput, abs.ATKdfInput}
 	for i := 0; i < n; i++ {
+		if k.R.Chance(1, 4) {
+			// a call the setter refuses: the object stays as it is (attributes present keep value AND framing, absent ones stay absent)
+			bad := []struct {
+				t uint8
+				n int
+			}{{abs.ATRand, 15}, {abs.ATAutn, 17}, {abs.ATMac, 0}, {abs.ATKdf, 1}, {abs.ATKdf, 3}, {abs.ATRes, 3}, {abs.ATRes, 17}, {4, 14}}[k.R.Intn(8)]
+			var err error
+			pn := core.Try(func() { err = ap.SetAttr(eap.EapAkaPrimeAttrType(bad.t), k.R.Bytes(bad.n)) })
+			steps = append(steps, fmt.Sprintf("refused(%d,%d)", bad.t, bad.n))
+			if pn != nil || err == nil {
+				k.Violate("setter", "setattr-accepted-illegal-value/history", fmt.Sprint(err, pn), M{"steps": steps})
+				return
+			}
+			k.Count("refused_setter_calls_in_histories", 1)
+			continue
+		}
 		t := types[k.R.Intn(len(types))]
 		var v abs.HB
 		switch t {
@@ -322,7 +339,7 @@ func c14(c *core.Ctx) {
 	// histories on one EAP-AKA' object: attributes set, then set again with other sizes (also after a decode)
 	c.Family("aka-overwrite", c.N(6000, 600000), func(k *core.Case) { c14History(k, false) })
 	c.Family("aka-amend-decoded", c.N(6000, 600000), func(k *core.Case) { c14History(k, true) })
-	c.Require("aka_histories_fresh", "aka_histories_decoded")
+	c.Require("aka_histories_fresh", "aka_histories_decoded", "refused_setter_calls_in_histories")
 	c.Family("methods", c.N(20000, 3000000), func(k *core.Case) {
 		e := gen.EAP(k.R)
 		c14One(k, e, "methods")
@@ -370,6 +387,13 @@ func refMAC(key, wire []byte, off int) []byte {
 
 // accept(p, K): Unmarshal(p) succeeds and Calc(K) on the result equals the AT_MAC value carried in p.
 func accept(p, key []byte) (ok bool, why string, pn *core.Panic) {
+	return acceptAfter(p, key, false)
+}
+
+// acceptAfter: with refusedCalls the receiving application first makes setter calls that the setter REFUSES (values
+// of a size it does not accept, an attribute kind it does not support) - a refused call must leave the received
+// packet as it was, so the code computed afterwards is still the transmitted one.
+func acceptAfter(p, key []byte, refusedCalls bool) (ok bool, why string, pn *core.Panic) {
 	pn = core.Try(func() {
 		le := new(eap.EAP)
 		if err := le.Unmarshal(p); err != nil {
@@ -380,6 +404,17 @@ func accept(p, key []byte) (ok bool, why string, pn *core.Panic) {
 		if !isAka || a == nil {
 			why = "not aka"
 			return
+		}
+		if refusedCalls {
+			for _, bad := range []struct {
+				t eap.EapAkaPrimeAttrType
+				n int
+			}{{eap.AT_MAC, 0}, {eap.AT_MAC, 15}, {eap.AT_RAND, 17}, {eap.AT_AUTN, 0}, {eap.AT_KDF, 3}, {eap.AT_RES, 3}, {eap.AT_RES, 17}, {4, 14}} {
+				if err := a.SetAttr(bad.t, make([]byte, bad.n)); err == nil {
+					why = fmt.Sprintf("SetAttr(%d, %d octets) was not refused", bad.t, bad.n)
+					return
+				}
+			}
 		}
 		at, err := a.GetAttr(eap.AT_MAC)
 		if err != nil {
@@ -414,6 +449,7 @@ func akaWithMac(r *core.Rng, idx int) *abs.AKA {
 }
 
 func c15Sender(k *core.Case) {
+	noiseFor(k)
 	key := pickKaut(k.R, k.Index)
 	a := akaWithMac(k.R, k.Index)
 	e := &abs.EAP{Code: uint8(k.R.Pick(1, 2)), ID: k.R.Byte(), Method: &abs.Method{Type: abs.MAkaPrime, AKA: a}}
@@ -511,6 +547,7 @@ func permute(r *core.Rng, a []abs.AKAAttr, idx int) {
 
 // reference-built packets: any attribute order, non-zero reserved / padding octets
 func c15Reference(k *core.Case) {
+	noiseFor(k)
 	key := pickKaut(k.R, k.Index/3)
 	a := akaWithMac(k.R, k.R.Intn(128))
 	permute(k.R, a.Attrs, k.Index)
@@ -558,13 +595,21 @@ func c15Reference(k *core.Case) {
 	}
 	w := M{"eap": e.Canon(), "k_aut": core.Hex(key), "wire": core.HexClip(wire, 3000), "wire_len": len(wire), "attribute_order": order, "nonzero_reserved_and_padding": noise, "other_attribute_types": extra}
 	k.Eval(1)
-	ok, why, pn := accept(wire, key)
+	refused := k.Index%5 == 2
+	ok, why, pn := acceptAfter(wire, key, refused)
 	if pn != nil {
 		k.Violate("panic", "receiver: "+pn.Sig(), "panic", panicData(pn, w))
 		return
 	}
+	if refused {
+		k.Count("receiver_made_refused_setter_calls_first", 1)
+		w["refused_setter_calls_before_computing"] = true
+	}
 	if !ok {
 		cls := "ascending-order"
+		if refused {
+			cls = "after-refused-setter-calls/" + cls
+		}
 		for i := 1; i < len(order); i++ {
 			if order[i] < order[i-1] {
 				cls = "non-ascending-order"
@@ -769,6 +814,6 @@ func c15(c *core.Ctx) {
 		k.Count("parallel_sessions_agree", 1)
 		k.Distinct(fmt.Sprintf("parallel|%d", len(ss)))
 	})
-	c.Require("parallel_sessions_agree", "sender_receiver_agree", "reference_packets_accepted", "reference_packets_over_4k", "exhaustive_flip_packets", "flip_region_attr-padding", "flip_region_attr-reserved-or-bitlen",
+	c.Require("receiver_made_refused_setter_calls_first", "parallel_sessions_agree", "sender_receiver_agree", "reference_packets_accepted", "reference_packets_over_4k", "exhaustive_flip_packets", "flip_region_attr-padding", "flip_region_attr-reserved-or-bitlen",
 		"flip_region_mac-value", "flip_region_eap-header", "flip_region_aka-header", "flip_region_attr-type", "flip_region_attr-length", "flip_region_attr-value")
 }
